@@ -141,6 +141,7 @@ structure Ipv4Hdr where
   checksum : Nat
   src : List Nat
   dst : List Nat
+  options : List Nat := []   -- read by `from_bytes` into a local vector and dropped: always empty in the code as it is
 deriving DecidableEq, Repr
 
 namespace Ipv4Hdr
@@ -237,6 +238,7 @@ structure TcpHdr where
   win : Nat
   checksum : Nat
   urgent : Nat
+  options : List Nat := []   -- never read by the code as it is (used by the model of the proposed repair only)
 deriving DecidableEq, Repr
 
 namespace TcpHdr
